@@ -125,6 +125,9 @@ TEMPLATES = {
     "THEN0": "C = C + 1 : IF C = 1 THEN {Z}",
     "ELSE0": 'IF C <> 0 THEN PRINT "{t}" ELSE C = 1 : GOTO {Z}',
     "ONGOTO0": "C = C + 1 : IF C = 1 THEN ON A GOTO {Z} , {G}",
+    # line 0 as a target in the last / a middle position of the list (the first target comes from another grammar rule)
+    "ONGOTO0TAIL": "C = C + 1 : IF C = 1 THEN ON A GOTO {G} , {Z}",
+    "ONGOTO0MID": "C = C + 1 : IF C = 1 THEN ON A GOTO {H} , {Z} , {G}",
     "ONGOTODUP": "ON A GOTO {G} , {G} , {H}",
     "ONGOSUBDUP": 'ON A GOSUB {S} , {S2} , {S} : PRINT "{t}"',
     # a statement list that starts with an empty statement (leading colon): on a line, in a THEN part, in an ELSE part
@@ -142,7 +145,7 @@ PAIR_ONLY = {"FORIF": "NEXTI", "FORLINE": "NEXTBARE"}
 SOLO_EXCLUDED = {"NEXTI", "NEXTBARE"}
 # variations of one construct: on their own and next to a few simple neighbours, not in every pair
 VARIANTS = {"IFLT", "IFGT", "IFLE", "IFGE", "IFNE", "IFEMPTYLT", "IFEMPTYGT", "IFEMPTYLE", "IFEMPTYGE", "IFEMPTYEQ", "IFEMPTYNE", "IFEMPTYCOLON", "IFEMPTYAND",
-            "IFEMPTYNUM", "IFEMPTYL", "IFEMPTYELSEPART", "BACK0", "THEN0", "ELSE0", "ONGOTO0", "ONGOTODUP", "ONGOSUBDUP", "COLONLEAD", "COLONIF", "COLONARMS", "COLONFOR", "FORSYMNEGSTEP", "FORSYMPOSSTEP", "FORSYMPARSTEP", "FORSYMPLUSSTEP"}
+            "IFEMPTYNUM", "IFEMPTYL", "IFEMPTYELSEPART", "BACK0", "THEN0", "ELSE0", "ONGOTO0", "ONGOTO0TAIL", "ONGOTO0MID", "ONGOTODUP", "ONGOSUBDUP", "COLONLEAD", "COLONIF", "COLONARMS", "COLONFOR", "FORSYMNEGSTEP", "FORSYMPOSSTEP", "FORSYMPARSTEP", "FORSYMPLUSSTEP"}
 
 OPTION_SETS = [
     dict(filter_unused_linenum=False, initialize_vars=False),
